@@ -1,3 +1,8 @@
 /* Witness wrappers for header-inline sizing functions (no object code of their own) */
 #include "varintDelta.h"
+#include "varintBP128.h"
+#include "varintElias.h"
 size_t w_deltaMaxEncodedSize(size_t count) { return varintDeltaMaxEncodedSize(count); }
+size_t w_bp128MaxBytes(size_t count) { return varintBP128MaxBytes(count); }
+size_t w_eliasGammaMaxBytes(size_t count) { return varintEliasGammaMaxBytes(count); }
+size_t w_eliasDeltaMaxBytes(size_t count) { return varintEliasDeltaMaxBytes(count); }
